@@ -1,4 +1,11 @@
 //@ inject crate=transport src=quic/s2n-quic-transport/src/ack/ack_manager.rs
+// OUTCOME (worker c06c08, not part of the registered checks): compiles and injects in the transport crate (where
+// IntervalSet::check_integrity is compiled out), but on_processed_packet K=0, on_transmit K=1 and on_packet_ack K=1 all hit a
+// 900 s timeout (no result, CBMC still running); K=2 variants were not started.  Same cause as
+// kani_injected_c08_ack_ranges.rs: symbolic execution over VecDeque<Interval<PacketNumber>> is too slow in this Kani
+// version.  Expected finding if it ever runs: `C08/ack_manager.on_processed_packet/out_of_order_acked_immediately` should fail
+// for old_max == 2^62-1 (`max_value.next()?` makes the closure return None => treated as in order and largest); the
+// `#outside-known` residual obligation excludes exactly that input.  To retry: copy to contracts/kani/transport/c08_ack_manager.rs.
 // Contract harnesses for AckManager -- property C08 ("every ACK frame an endpoint sends acknowledges only packet numbers
 // it has actually received and successfully processed ... every ack-eliciting packet it processes is acknowledged promptly
 // (within the advertised max_ack_delay plus scheduling granularity, immediately when it arrives out of order)").
@@ -207,7 +214,7 @@ fn processed_packet_step(k: usize) {
     kani::cover!(true, "reach:end");
 }
 
-//@ harness props=C08 tier=thorough level=bounded timeout=1500 bound="K=0 stored ranges, ack_ranges_limit 2; packet number, witness, ECN, elicitation, timer, counters, state symbolic; times within one second"
+//@ harness props=C08 tier=thorough level=bounded timeout=900 bound="K=0 stored ranges, ack_ranges_limit 2; packet number, witness, ECN, elicitation, timer, counters, state symbolic; times within one second"
 //@ fn AckManager::on_processed_packet
 //@ fn AckManager::new
 #[kani::proof]
@@ -395,7 +402,7 @@ fn transmit_step(k: usize) {
     kani::cover!(true, "reach:end");
 }
 
-//@ harness props=C08 tier=thorough level=bounded timeout=1500 bound="K=1 stored range, ack_ranges_limit 2; values, witness, constraint, mode, state symbolic; times within two seconds"
+//@ harness props=C08 tier=thorough level=bounded timeout=900 bound="K=1 stored range, ack_ranges_limit 2; values, witness, constraint, mode, state symbolic; times within two seconds"
 //@ fn AckManager::on_transmit
 //@ fn AckManager::ack_delay
 //@ fn AckTransmissionState::should_transmit
@@ -478,7 +485,7 @@ fn packet_ack_step(k: usize) {
     kani::cover!(true, "reach:end");
 }
 
-//@ harness props=C08 tier=thorough level=bounded timeout=1500 bound="K=1 stored range, <= 2 tracked ACK transmissions; all packet numbers and the witness symbolic"
+//@ harness props=C08 tier=thorough level=bounded timeout=900 bound="K=1 stored range, <= 2 tracked ACK transmissions; all packet numbers and the witness symbolic"
 //@ fn AckManager::on_packet_ack
 //@ fn ack::transmission::Set::on_update
 #[kani::proof]
